@@ -106,7 +106,11 @@ _public_ int m_mod_set_batch_timeout(m_mod_t *mod, uint64_t timeout_ns) {
 
     /* If it was already set, remove old timer */
     if (mod->batch.timer.ns != 0) {
-        m_mod_src_deregister_tmr(mod, &mod->batch.timer);
+        /* Refused (eg: -EAGAIN, no tokens left)? Then change nothing: the old timer is still there */
+        const int ret = m_mod_src_deregister_tmr(mod, &mod->batch.timer);
+        if (ret != 0) {
+            return ret;
+        }
     }
     mod->batch.timer.clock_id = CLOCK_MONOTONIC;
     mod->batch.timer.ns = timeout_ns;
